@@ -7,6 +7,13 @@ All theorems quantify over every list of engine calls `ops` (any number of gorou
 controllers, any kinds, any watch lists, any XR reference sets) and every state `s` with
 `Reachable Cfg.fixed ops s`, i.e. every interleaving of the calls at lock granularity, every
 fault of the calls that leave the engine, and every Go map iteration order.
+Kinds (`Wid.gvk`, the XRs' references, `removeInformer`) and controller names are opaque
+numbers: the harness maps every (group, version, kind) triple — also look-alikes that differ in
+the version, the API group, the case or by a suffix only — and every controller name to its own
+number, so "the same kind" below always means the same group, version AND kind. Every step's
+`Choice` carries the class of the error a failing call returns (`error_class_irrelevant`).
+A collector call is a thread of its own with the XRs ITS List returned: the theorems about the
+collector hold for each call whatever earlier calls of the same (long-lived) collector saw.
 `Cfg.fixed` is the tree with fixes/D2.diff, fixes/D3.diff and fixes/D12.diff applied; the
 `…_fails_on_unfixed_witness` theorems exhibit, on `Cfg.asFound` (the pinned commit), a
 reachable state that breaks the clause.  Data races in the sense of the Go memory model are
@@ -182,6 +189,45 @@ theorem gc_never_stops_xr_or_revision_watch {ops : List Op} {s s' : Sys} (h : Re
   have := (gc_only_unreferenced_composed h ht hop hstep hbefore hafter).1
   rw [this] at hw
   rcases hw with h | h | h <;> cases h
+
+/-- A collector call acts on the XRs IT listed and on nothing remembered from an earlier call:
+kinds that only OTHER lists reference (the XRs an earlier run of the same collector saw, the XRs
+of another composite kind, another version / API group / spelling of a kind — every such kind is
+a different number) do not keep a watch. A running composed-resource watch whose exact kind none
+of the XRs of this call references is in the stop set, whatever else is referenced. -/
+theorem gc_reference_to_another_kind_keeps_nothing (running : List Wid) (xrs : List XR) (w : Wid)
+    (hrun : w ∈ running) (hty : w.ty = .composed) (hother : ∀ x ∈ xrs, ∀ g, some g ∈ x.refs → g ≠ w.gvk) :
+    w ∈ gcStop Cfg.fixed running (refsOf xrs) :=
+  (gc_decision running xrs w).2 ⟨hrun, hty, fun x hx href => hother x hx w.gvk href rfl⟩
+
+/-! ### error classes -/
+
+/-- No step looks at the class of the error a failing call returns (NotFound, Conflict,
+AlreadyExists, Invalid, Forbidden, TooManyRequests, NoKindMatch, a Temporary() transport error, a
+context deadline or cancellation, anything else): every theorem above that says "for every
+fault" holds for every fault of every class, and a failing call has the same effect whatever its
+class (both code variants). -/
+theorem error_class_irrelevant (cfg : Cfg) (s : Sys) (i : Nat) (ch : Choice) (c : ErrClass) :
+    step cfg s i { ch with cls := c } = step cfg s i ch := by
+  unfold step
+  cases s.threads[i]? with
+  | none => rfl
+  | some t =>
+    have : next cfg s i t { ch with cls := c } = next cfg s i t ch := by
+      obtain ⟨op, pc⟩ := t
+      cases pc <;> first | rfl | (cases op <;> rfl)
+    simp only [this]
+
+/-- A collector whose List of the XRs failed — with an error of ANY class, also NotFound or
+NoKindMatch ("the XRs' CRD is gone") — has seen no XR and stops nothing: the call ends with that
+error and nothing else changes. -/
+theorem gc_failed_list_changes_nothing {cfg : Cfg} {s s' : Sys} {i n : Nat} {xrs : List XR} {ch : Choice}
+    (ht : s.threads[i]? = some ⟨.gc n xrs, .idle⟩) (hf : ch.fault = true) (h : step cfg s i ch = some s') :
+    s' = { s with threads := s.threads.set i ⟨.gc n xrs, .done .err⟩ } := by
+  unfold step at h
+  rw [ht] at h
+  simp only [next, hf, if_true, Option.some.injEq] at h
+  exact h.symm
 
 /-! ### restart after informer loss -/
 
